@@ -4,6 +4,7 @@ import (
 	"flag"
 	"fmt"
 	"os"
+	"time"
 )
 
 func pickLangs(k int) func(string, int, *rng) []int {
@@ -34,6 +35,9 @@ func main() {
 	}
 	openOut(*outp)
 	defer closeOut()
+	if *tier == "quick" {
+		watchdog = 30 * time.Second
+	}
 	loadGolden()
 	loadPools()
 	emit(Event{"op": "Reset", "fresh_process": true, "seed": *seed, "tier": *tier, "prop": *prop})
